@@ -14,9 +14,12 @@ OpsWeak == OpsCore \cup {"Downgrade", "Upgrade", "UpgradeStored", "WeakClone", "
                          "StoreWeak", "TakeWeak"}
 
 Caps2 == [strong |-> 3, stored |-> 2, rec |-> 2, weak |-> 1, storedW |-> 1]
+CapsQ == [strong |-> 2, stored |-> 1, rec |-> 1, weak |-> 1, storedW |-> 1]
+CapsM == [strong |-> 3, stored |-> 1, rec |-> 1, weak |-> 1, storedW |-> 1]
 Caps3 == [strong |-> 3, stored |-> 1, rec |-> 1, weak |-> 1, storedW |-> 1]
 VPinned == [bust |-> "out", loop |-> "split", consume |-> "ignore"]
-VFixed  == [bust |-> "owned", loop |-> "merged", consume |-> "purge"]
+VFixed  == [bust |-> "owned", loop |-> "ignored", consume |-> "ignore"]
+VFixA   == [bust |-> "owned", loop |-> "split", consume |-> "ignore"]
 MenuPlain == {NoScript}
 
 MCInit == Init /\ hist = <<>>
@@ -37,6 +40,17 @@ View == <<heap, led,
           [nd |-> ob.nd, nf |-> ob.nf, ub |-> ob.ub, must |-> ob.must, flags |-> ob.flags,
            empty0 |-> ob.empty0],
           ctl>>
+
+\* invariants that print the call sequence of a counterexample as a replayable script
+Cex(name, P) == P \/ (PrintT(<<"CEX", name, ToJson(hist)>>) /\ FALSE)
+MC_C01 == Cex("C01", C01)
+MC_C02 == Cex("C02", C02)
+MC_C03 == Cex("C03", C03)
+MC_C04 == Cex("C04", C04)
+MC_C05 == Cex("C05", C05)
+MC_C06 == Cex("C06", C06)
+MC_C08 == Cex("C08", C08)
+MC_C14 == Cex("C14", C14)
 
 \* stop exploring below a terminal mode
 Live2 == ctl.mode = "run"
